@@ -4,7 +4,14 @@
    decorators] return the very object they were given, unmodified, and impose no checks; with
    the variable unset or set to 1 (or after enable_pedantic()) they check.  The switch is read
    only when a decorator is applied: toggling it afterwards never changes the behaviour of
-   already decorated callables."   Domain: the variable is unset, "0" or "1".              *)
+   already decorated callables."   Domain: the variable is unset, "0" or "1".
+
+   The object handed to a decorator need not be fresh: it may be an object that went through a decorator earlier in
+   the history (the object that was given then, or the result), or a new subclass of a class that did.  The statement
+   reads the same: while the variable is "0" the result IS the given object and nothing about it (or anything else)
+   changes; otherwise the result checks.  What becomes of the GIVEN object when an enabled decorator is applied to it
+   (is it wrapped in place, is it left alone) the statement does not say: from then on nothing is demanded of calls
+   made through that object (OUnspec).                                                                                *)
 From Coq Require Import List Bool String Arith.
 From PV Require Import Base.Exn Model.EnvSwitch.
 Import ListNotations.
@@ -26,17 +33,43 @@ Definition spec_enabled (e : envv) : bool :=
 Definition op_in_domain (o : op) : bool :=
   match o with OSetenv s => in_domain (Val s) | _ => true end.
 
-(* the specification as a machine: what was decided at decoration time is all that matters *)
-(* s_objs: true = decorated while enabled.  s_decos: how many decorator objects have been created; nothing else about
-   them matters ("the switch is read only when a decorator is applied") *)
-Record sstate := { s_env : envv; s_objs : list bool; s_decos : nat }.
+(* pedantic and pedantic_require_docstring are put on functions, the other five on classes *)
+Definition spec_fam (d : dkind) : family :=
+  match d with
+  | DPedantic | DPedanticReqDoc => FFn
+  | DPedanticClass | DPedanticClassReqDoc | DTraceClass | DTimerClass | DForAllMethods => FCls
+  end.
 
-Definition s_with_env (s : sstate) (e : envv) : sstate := {| s_env := e; s_objs := s_objs s; s_decos := s_decos s |}.
+(* the specification as a machine: what was decided at decoration time is all that matters.
+   Objects have identities (numbers).  s_beh: per identity what calling it does - Some true: it checks, Some false: it
+   behaves like the undecorated callable, None: the statement does not determine it.  s_objs: per decoration the
+   identity that was given and the identity that came back.  s_decos: the decorator objects that have been created;
+   nothing but their kind matters ("the switch is read only when a decorator is applied") *)
+Record sobj := { so_fam : family; so_given : nat; so_res : nat }.
+Record sstate := { s_env : envv; s_beh : list (option bool); s_objs : list sobj; s_decos : list dkind }.
 
-(* applying a decorator: identity iff the variable is "0" NOW *)
-Definition spec_decorate (s : sstate) : sstate * obs :=
-  let en := spec_enabled (s_env s) in
-  ({| s_env := s_env s; s_objs := s_objs s ++ [en]; s_decos := s_decos s |}, ODeco (negb en)).
+Definition s_with_env (s : sstate) (e : envv) : sstate :=
+  {| s_env := e; s_beh := s_beh s; s_objs := s_objs s; s_decos := s_decos s |}.
+
+(* applying a decorator to the object with identity g: the very object, nothing changed, iff the variable is "0" NOW;
+   otherwise a result that checks (given a new identity: whether it is the given object is not stated) *)
+Definition spec_decorate_on (s : sstate) (f : family) (g : nat) : sstate * obs :=
+  if spec_enabled (s_env s) then
+    ({| s_env := s_env s; s_beh := set_nth (s_beh s) g None ++ [Some true];
+        s_objs := s_objs s ++ [{| so_fam := f; so_given := g; so_res := List.length (s_beh s) |}];
+        s_decos := s_decos s |}, ODeco false)
+  else
+    ({| s_env := s_env s; s_beh := s_beh s;
+        s_objs := s_objs s ++ [{| so_fam := f; so_given := g; so_res := g |}];
+        s_decos := s_decos s |}, ODeco true).
+
+(* a fresh target (a new function, a new class, a new subclass: what it defines itself is undecorated) *)
+Definition spec_decorate_fresh (s : sstate) (f : family) : sstate * obs :=
+  spec_decorate_on {| s_env := s_env s; s_beh := s_beh s ++ [Some false]; s_objs := s_objs s; s_decos := s_decos s |}
+                   f (List.length (s_beh s)).
+
+Definition spec_src (s : sstate) (src : dsrc) : option dkind :=
+  match src with Direct d => Some d | Kept k => nth_error (s_decos s) k end.
 
 Definition spec_step (s : sstate) (o : op) : sstate * obs :=
   match o with
@@ -44,15 +77,35 @@ Definition spec_step (s : sstate) (o : op) : sstate * obs :=
   | OUnsetenv => (s_with_env s Unset, ONone)
   | OEnable => (s_with_env s (Val "1"), ONone)
   | ODisable => (s_with_env s (Val "0"), ONone)
-  | ODecorate _ _ => spec_decorate s
+  | ODecorate d => spec_decorate_fresh s (spec_fam d)
   | OCall i =>
     match nth_error (s_objs s) i with
-    | Some true => (s, OCalled Checked)
-    | Some false => (s, OCalled Plain)
+    | Some so => (s, match nth_error (s_beh s) (so_res so) with
+                     | Some (Some true) => OCalled Checked
+                     | Some (Some false) => OCalled Plain
+                     | _ => OUnspec
+                     end)
     | None => (s, ONone)
     end
-  | OCreate _ => ({| s_env := s_env s; s_objs := s_objs s; s_decos := S (s_decos s) |}, ONone)   (* creating reads nothing *)
-  | OApply k _ => if Nat.ltb k (s_decos s) then spec_decorate s else (s, ONone)
+  | OCreate d => ({| s_env := s_env s; s_beh := s_beh s; s_objs := s_objs s; s_decos := s_decos s ++ [d] |}, ONone)   (* creating reads nothing *)
+  | OApply k => match nth_error (s_decos s) k with Some d => spec_decorate_fresh s (spec_fam d) | None => (s, ONone) end
+  | ORedecorate src i again =>
+    match nth_error (s_objs s) i, spec_src s src with
+    | Some so, Some d =>
+      if family_eqb (spec_fam d) (so_fam so)
+      then spec_decorate_on s (so_fam so) (if again then so_res so else so_given so)
+      else (s, ONone)                                        (* a class decorator on a function or vice versa: not an input *)
+    | _, _ => (s, ONone)
+    end
+  | OSubDecorate src i =>
+    match nth_error (s_objs s) i, spec_src s src with
+    | Some so, Some d =>
+      match so_fam so, spec_fam d with
+      | FCls, FCls => spec_decorate_fresh s FCls
+      | _, _ => (s, ONone)
+      end
+    | _, _ => (s, ONone)
+    end
   end.
 
 Fixpoint spec_run (s : sstate) (h : list op) : sstate * list obs :=
@@ -60,3 +113,6 @@ Fixpoint spec_run (s : sstate) (h : list op) : sstate * list obs :=
   | [] => (s, [])
   | o :: h' => let (s1, b) := spec_step s o in let (s2, bs) := spec_run s1 h' in (s2, b :: bs)
   end.
+
+(* an observation meets the demand of the statement *)
+Definition obs_meets (observed demanded : obs) : Prop := demanded = OUnspec \/ observed = demanded.
